@@ -1418,4 +1418,92 @@ Proof.
 Qed.
 End RenameCmd.
 
+Lemma post_renormalize (P : wpred) ld : post P (renormalize ld) (fun _ => P).
+Proof.
+  unfold renormalize. destruct (normalize_order (ld_map ld)); [apply post_ret; auto|].
+  intros s _ HP. exact I.
+Qed.
+
+Lemma rename_layer_post f0 e ld old new :
+  fs_clean f0 -> nolink f0 -> closed f0 -> e_pretend e = false ->
+  LDI (skel (read_layer_files c f0)) ld -> paths_ok c (ld_map ld) -> gforest (G f0) ->
+  post (fun w => w_fs w = f0) (rename_layer e c ld old new) (fun _ w' => gforest (G (w_fs w'))).
+Proof.
+  intros Hc0 Hn0 Hcl0 Hnp [Hs HW] HPa HG. unfold rename_layer.
+  apply post_guard_k. intros G0. apply andb_true_iff in G0 as [G1 G2].
+  apply test_name_need in G1 as (Ho & Lo & l & El). apply test_name_free in G2 as (Hn & Ln & Hfree). rewrite El.
+  apply post_guard_k. intros _. apply post_guard_k. intros _. cbv zeta. apply post_guard_k. intros _.
+  set (kids := children_in_order e (ld_map ld) old). set (K := map l_name kids).
+  assert (Po : plain old) by now apply legal_plain.
+  assert (Pnw : plain new) by now apply legal_plain.
+  assert (Hon : old <> new) by (intros <-; congruence).
+  assert (Hg : forall x, g_of (ld_map ld) x = G f0 x) by (intros x; now apply skel_g).
+  pose proof (lm_get_name _ _ _ El) as Eno. pose proof (lm_get_in _ _ _ El) as Hin.
+  assert (Hgo : G f0 old = Some (l_base l)) by (rewrite <- Hg; apply g_of_some; eauto).
+  assert (Hgn : G f0 new = None) by (rewrite <- Hg; now apply g_of_none).
+  destruct (G_some_child f0 old _ Hc0 Hn0 Hgo) as (_ & _ & Hdo & Hcbo).
+  assert (Hcfg : fs_get f0 (cfgp old) <> None).
+  { unfold cfgbase in Hcbo. destruct (fs_get f0 (cfgp old)); [discriminate|discriminate]. }
+  assert (HBC : bcons (ld_map ld)) by (apply (bcons_skel (read_layer_files c f0)); [now symmetry|apply rlf_bcons]).
+  assert (Hloop : G f0 old <> Some old).
+  { intros E. destruct (HG _ _ E) as (k & Hk). assert (greach (G f0) old (S k)) by (econstructor; eauto).
+    pose proof (greach_det _ _ _ Hk _ H). lia. }
+  assert (HK : forall x, memb x K = true <-> G f0 x = Some old).
+  { intros x. unfold K. rewrite memb_In, <- Hg. split.
+    - intros H. apply in_map_iff in H as (k & <- & Hk). apply kids_sound in Hk as [H1 H2].
+      rewrite (HBC k H1). now rewrite H2.
+    - intros H. apply g_of_some in H as (k & Ek & Eb). rewrite <- (lm_get_name _ _ _ Ek).
+      apply kids_complete; [eapply lm_get_in; eauto|exact Eb]. }
+  assert (PK : forall k, In k K -> plain k).
+  { intros k Hk. apply memb_In, HK in Hk. now destruct (G_some_child f0 k _ Hc0 Hn0 Hk). }
+  assert (Kne : forall k, In k K -> k <> old /\ k <> new).
+  { intros k Hk. apply memb_In, HK in Hk. split; intros ->; congruence. }
+  (* 1. export links *)
+  eapply post_bind with (Q := fun _ w => IB [] f0 (w_fs w)).
+  { eapply post_conseq; [apply post_of_hs, (ren_links_step f0 old e Po l Eno)| |]; cbv beta; auto.
+    intros w ->. now apply IB_refl. }
+  intros _.
+  (* 2. the directory *)
+  rewrite (HPa l Hin), Eno, (layer_path_eq old Po), (layer_path_eq new Pnw).
+  eapply post_bind with (Q := fun _ w => KidSt f0 old new K [] (w_fs w)).
+  { apply post_fix_world. intros w1 HI1.
+    eapply post_conseq; [apply (ren_dir_post f0 old new e Hcl0 Hnp Po Pnw Hon K (w_fs w1) HI1 Hcfg PK)| |]; cbv beta.
+    - intros w ->. reflexivity.
+    - intros _ w (A1 & A2 & A3 & A4 & A5). split; [exact A1|]. split; [exact A2|]. split.
+      { rewrite A3. unfold cfgp. apply (IB0_get f0 (w_fs w1) old [lcf] HI1 Po). constructor; [apply plain_lcf|constructor]. }
+      split; [apply A4; now apply (IB0_hasdir f0)|].
+      intros j Pj Hjo Hjn. destruct (A5 j Pj Hjo Hjn) as [B1 B2]. split.
+      + intros H. apply B2. now apply (IB0_hasdir f0).
+      + cbn [memb existsb]. rewrite B1. unfold cfgp. apply (IB0_get f0 (w_fs w1) j [lcf] HI1 Pj).
+        constructor; [apply plain_lcf|constructor]. }
+  intros _.
+  (* 3. the children *)
+  eapply post_bind with (Q := fun _ w => KidSt f0 old new K K (w_fs w)).
+  { eapply post_conseq;
+      [apply (post_mapM_ (fun done w => KidSt f0 old new K (map l_name done) (w_fs w))
+                (fun k => write_layerfile e (set_base k new)) kids)| |]; cbv beta; auto.
+    intros done x rest Ek. apply post_fix_world. intros w1 HS1.
+    assert (Hxk : In x kids) by (rewrite Ek; apply in_or_app; right; now left).
+    assert (HxK : In (l_name x) K) by (unfold K; now apply in_map).
+    destruct (Kne _ HxK) as [N1 N2]. destruct (kids_sound _ _ _ _ Hxk) as [Hxm _].
+    eapply post_conseq; [apply (kid_step f0 old new e Hnp Po Pnw K (map l_name done) (w_fs w1) (set_base x new) (l_name x) HS1 (PK _ HxK) HxK N1 N2)| |]; cbv beta.
+    - reflexivity.
+    - cbn [set_base l_path]. apply (HPa x Hxm).
+    - destruct (HW x Hxm) as (_ & M1 & M2). split; [|now split]. cbn [set_base l_base]. right. now apply legal_tok.
+    - intros w ->. reflexivity.
+    - intros _ w H. now rewrite map_app. }
+  intros _.
+  (* 4. the renamed layer itself *)
+  eapply post_bind; [apply post_renormalize|]. intros ld'. cbv beta.
+  eapply post_bind with (Q := fun _ w => FinSt f0 old new K (l_base l) (w_fs w)).
+  { apply post_fix_world. intros w1 HS1.
+    eapply post_conseq; [apply (self_step f0 old new e Hnp Po Pnw Hon K (w_fs w1) (set_name_path l new (lp Lc new)) HS1)| |]; cbv beta.
+    - cbn [set_name_path l_path]. now rewrite layer_path_eq.
+    - exact (HW l Hin).
+    - intros w ->. reflexivity.
+    - intros _ w H. exact H. }
+  intros _. apply post_ret. intros w HFin.
+  now apply (ren_final f0 old new Hc0 Hn0 Po Pnw Hon K (l_base l) (w_fs w) HFin HG Hgn Hn Ho Hgo Ln HK PK).
+Qed.
+
 End WithCfg.
